@@ -221,7 +221,9 @@ func runC10(c *Ctx, idx int) {
 		"http://example.com",
 		"http://example.com?q=1#f",
 		"//example.com/story/alpha/page/2",
-	}[idx%9])
+		"http://example.com/a%2Fb/story",
+		"http://example.com/caf%C3%A9/x%2Fy/page/2",
+	}[idx%11])
 	witness := func(extra map[string]any) map[string]any {
 		w := map[string]any{"html": src, "page_url": pageURL.String()}
 		for k, v := range extra {
